@@ -91,7 +91,11 @@ def gen_case(rng):
         if s[0] == "pf" and rng.random() < 0.6:
             tun.append((si, 0))
         elif s[0] == "ad" and head_bound(s) and rng.random() < 0.85:
-            tun += [(si, hi) for hi in range(len(s[1]))]
+            his = list(range(len(s[1])))
+            if len(his) >= 3 and rng.random() < 0.5:
+                # mixed AD: some heads keep their constant probability (two or more fixed heads are possible)
+                his = sorted(rng.sample(his, rng.randint(1, len(his) - 1)))
+            tun += [(si, hi) for hi in his]
         elif s[0] == "prule" and head_bound(s) and rng.random() < 0.5:
             tun.append((si, 0))
     if not tun:
